@@ -306,7 +306,8 @@ pub fn rand_bounds<R: Rng>(rng: &mut R, k: usize) -> (Vec<f64>, Vec<(f64, f64)>)
 /// adversarial scripted histories: long reject runs, alternation, all-accept, all-reject,
 /// undefined scores, random mixtures with a chosen rejection rate
 pub fn rand_script<R: Rng>(rng: &mut R) -> Script {
-    let gap = [1., 1e-3, 1e3][rng.gen_range(0, 3)];
+    // (tiny gaps: a move that is worse by 1e-16 or by one denormal is still worse)
+    let gap = [1., 1e-3, 1e3, 1., 1e-3, 1e-16, 1e-300, 5e-324][rng.gen_range(0, 8)];
     match rng.gen_range(0, 8) {
         0 => Script::Pattern { pattern: "W".into(), gap },
         1 => Script::Pattern { pattern: "B".into(), gap },
